@@ -229,7 +229,9 @@ func polyOf(v ssa.Value, depth int) gpoly {
 }
 
 type arrayDesc struct {
-	poly   gpoly
+	// condSite: an append site that some iterations of its loop skip (the array is built by appends only)
+	condSite *ssa.Call
+	poly     gpoly
 	kind   string // "make", "append", ""
 	length string // for make
 	at     ssa.Instruction
@@ -293,6 +295,9 @@ func describeArray(v ssa.Value, handoff ssa.Instruction) arrayDesc {
 			}
 			t, ok := siteTotal(a, np, handoff)
 			if !ok {
+				if conditionalInLoop(a) {
+					d.condSite = a
+				}
 				return d
 			}
 			total = total.add(t, 1)
@@ -342,6 +347,21 @@ func siteTotal(a *ssa.Call, n gpoly, handoff ssa.Instruction) (gpoly, bool) {
 		return nil, false
 	}
 	return total, true
+}
+
+// conditionalInLoop: the append sits in a loop and some iteration of that loop can skip it.
+func conditionalInLoop(a *ssa.Call) bool {
+	loops := ssau.Loops(a.Parent())
+	l := ssau.InnermostLoop(loops, a.Block())
+	if l == nil {
+		return false
+	}
+	for _, latch := range l.Latch {
+		if !a.Block().Dominates(latch) {
+			return true
+		}
+	}
+	return false
 }
 
 // tripCount: canonical trip count of `for i := s; i < B; i++` / `for … := range slice`.
@@ -629,10 +649,35 @@ func Generators(fns []*ssa.Function, modelingPath string) []GenFinding {
 		for _, root := range roots {
 			hs := groups[root]
 			var ds []arrayDesc
+			var conds []arrayDesc
+			var condAt []ssa.Instruction
 			for _, h := range hs {
 				d := describeArray(h.v, h.at)
 				if d.kind != "" {
 					ds = append(ds, d)
+				} else if d.condSite != nil {
+					conds = append(conds, d)
+					condAt = append(condAt, h.at)
+				}
+			}
+			// an array that grows under a per-element condition, attached unconditionally next to a sibling
+			// whose element count is fixed by the loop bounds alone
+			if len(ds) > 0 {
+				for i, d := range conds {
+					// attached in the very block in which the sibling with the fixed count is attached
+					uncond := false
+					for _, h := range hs {
+						if h.at != condAt[i] && h.at.Block() == condAt[i].Block() {
+							if dd := describeArray(h.v, h.at); dd.kind != "" {
+								uncond = true
+							}
+						}
+					}
+					if !uncond {
+						continue
+					}
+					out = append(out, GenFinding{Rule: "GEN-LEN", Fn: fn, At: d.condSite, OK: false, Key: "conditional",
+						Detail: "this array receives an element only on some iterations (the append can be skipped inside its loop) while a sibling array of the same mesh always holds " + ds[0].poly.String() + " elements, and it is attached to the mesh unconditionally: the attribute arrays differ in length whenever an element is skipped"})
 				}
 			}
 			if len(ds) >= 2 {
